@@ -247,6 +247,20 @@ pub fn resolve_all(text: &str, style: ScalarStyle, style_name: &str, tag: &TagCf
     out.push(("YamlLoader<Yaml>::on_event", if d.len() == 1 { of_yaml(&d[0]) } else { Out::Other(format!("{} documents", d.len())) }));
     let d: Vec<YamlOwned> = via_loader(text, style, &tag.tag);
     out.push(("YamlLoader<YamlOwned>::on_event", if d.len() == 1 { of_yaml_owned(&d[0]) } else { Out::Other(format!("{} documents", d.len())) }));
+    // deferred resolution: the unresolved node, then parse_representation (borrowed and owned node types)
+    {
+        let mut n = Yaml::Representation(Cow::Borrowed(text), style, tag.tag.clone());
+        let _ = n.parse_representation();
+        out.push(("Yaml::Representation + parse_representation", of_yaml(&n)));
+        let mut n = YamlOwned::Representation(text.to_string(), style, tag.tag.clone());
+        let _ = n.parse_representation();
+        out.push(("YamlOwned::Representation + parse_representation", of_yaml_owned(&n)));
+        let mut n = Yaml::Sequence(vec![Yaml::Representation(Cow::Borrowed(text), style, tag.tag.clone())]);
+        let _ = n.parse_representation_recursive();
+        if let Yaml::Sequence(v) = &n {
+            out.push(("Yaml::Representation + parse_representation_recursive", of_yaml(&v[0])));
+        }
+    }
     if style == ScalarStyle::Plain && tag.tag.is_none() {
         out.push(("Scalar::parse_from_cow(borrowed)", of_scalar(&Scalar::parse_from_cow(Cow::Borrowed(text)))));
         out.push(("Scalar::parse_from_cow(owned)", of_scalar(&Scalar::parse_from_cow(Cow::Owned(text.to_string())))));
